@@ -78,12 +78,68 @@ def run(ctx):
                 seen.add(k)
                 cases.append(c)
         judge(ctx, "merge", cases, run_harness(ctx, "merge", cases, "merge%d" % n))
+    rounds(ctx)
+    binding_selftest(ctx)
     ctx.cov["rule"] = ("every sequence of MaxProbes probe reports over the configured alphabet (exhaustive), compared after "
                        "every step; every reachable pair of latency tables with <= MaxOps entries (exhaustive).  A sequence is "
                        "non-trivial when it has >= 2 address observations of one family or two latencies for one (kind, relay); "
                        "a pair when both tables are non-empty")
     ctx.cov["exhaustive"] = True
     ctx.assume("the harness maps model addresses a/b to fixed socket addresses and relays r1<r2<r3 to URLs with the same order")
+
+
+def rounds(ctx):
+    """Growth: the aggregation followed by the finishing step (C27 + C28 pipeline, as Client::get_report does):
+    two rounds of probe reports on one real Report each, finished through the real report history under the paused
+    clock; what was aggregated must survive the finishing step unchanged."""
+    consts = ctx.pick(dict(NRelays=1, Lats="{4}", MaxProbes=2), dict(NRelays=2, Lats="{4, 6}", MaxProbes=2))
+    res = ctx.tlc("netreport", "NetReport", cfg="NetReport_Rounds.cfg", mode="gen", constants=consts, timeout=3000,
+                  require_actions=["Update", "Finish"])
+    cases = res.replays
+    if not cases:
+        raise ToolError("NetReport_Rounds produced no cases")
+    inp = ctx.write_ndjson("c27-rounds.in", cases)
+    outp = ctx.path("c27-rounds.out")
+    ctx.run_bin("vh_netrep", ["c27rounds", "--in", inp, "--out", outp])
+    obs = ctx.read_ndjson(outp)
+    if len(obs) != len(cases):
+        raise ToolError("harness returned %d observations for %d cases" % (len(obs), len(cases)))
+    inherit_diff = 0
+    for c, o in zip(cases, obs):
+        key = ["rounds", [[r["dt"], [[s["p"][f] for f in ("kind", "relay", "lat", "fam", "addr")] for s in r["probes"]]]
+                          for r in c["rounds"]]]
+        inherited = any(r["var4"] != r["agg"]["var4"] or r["var6"] != r["agg"]["var6"] for r in c["rounds"])
+        ctx.count(case_key=key, nontrivial=inherited or any(len(r["probes"]) >= 2 for r in c["rounds"]))
+        if not o["ok"]:
+            ctx.report({"kind": "rounds", "field": o["what"], "exp": o["exp"], "got": o["got"]},
+                       "round %d step %d: %s expected %s, got %s" % (o["round"] + 1, o["step"], o["what"], o["exp"], o["got"]), c)
+            continue
+        # mapping_varies inherited from the previous report is documented code behaviour outside C27/C28: recorded only
+        if [list(v) for v in o["varies"]] != [[r["var4"], r["var6"]] for r in c["rounds"]]:
+            inherit_diff += 1
+        if inherited:
+            ctx.sample({"rounds": key[1], "mapping_varies_after_finish": o["varies"], "preferred": o["prefs"]}, limit=6)
+    ctx.log("rounds: %d histories, %d with a mapping_varies inheritance differing from the model (informational)"
+            % (len(cases), inherit_diff))
+
+
+def binding_selftest(ctx):
+    """A falsified expectation must be noticed by the harness comparison."""
+    case = {"steps": [
+        {"p": {"kind": "qad4", "relay": "r1", "lat": 4, "fam": "v4", "addr": "a"},
+         "exp": {"udp4": True, "udp6": False, "var4": "none", "var6": "none", "glob4": "a", "glob6": "none", "lat": [0, 4, 0]}},
+        {"p": {"kind": "qad4", "relay": "r1", "lat": 6, "fam": "v4", "addr": "b"},
+         "exp": {"udp4": True, "udp6": False, "var4": "true", "var6": "none", "glob4": "a", "glob6": "none", "lat": [0, 4, 0]}}]}
+    import copy
+    flipped = []
+    for field, val in (("glob4", "b"), ("var4", "false"), ("lat", [0, 6, 0])):
+        c = copy.deepcopy(case)
+        c["steps"][1]["exp"][field] = val
+        flipped.append(c)
+    obs = run_harness(ctx, "seq", [case] + flipped, "selftest")
+    if not obs[0]["ok"] or any(o["ok"] for o in obs[1:]):
+        raise ToolError("binding self-test: falsified expectations were not all rejected: %s" % obs)
+    ctx.log("binding self-test: 3 falsified expectations rejected, the true one accepted")
 
 
 def run_harness(ctx, kind, cases, tag):
